@@ -410,4 +410,30 @@ def SL.values (cfg : Cfg K V) (s : SL K V) : Option (List V) :=
       | none => none
       | some vs => fillSlice cfg.zeroV s.len vs
 
+/-! ### traversal through node handles -/
+
+/-- `for n := start; n != nil; n = n.Next() { f(n.Key(), n.Value()) }` through the exported node
+methods (`Next()` = `n.next[0]`); `fuel` bounds the number of nodes visited (`SL.walk` passes
+the length of the level-0 chain, proved sufficient).  `none`: `Next()` on a node that is not
+linked at level 0 (index out of range) or fuel exhausted. -/
+def SL.walkNodes (s : SL K V) : Nat → Option K → Option (List (K × V))
+  | _, none => some []
+  | 0, some _ => none
+  | fuel + 1, some n =>
+    match getVal s.vals n, s.nodeNext n with
+    | some v, some nx => (s.walkNodes fuel nx).map ((n, v) :: ·)
+    | _, _ => none
+
+/-- `for n := s.Head(); n != nil; n = n.Next() { … }`. -/
+def SL.walk (s : SL K V) : Option (List (K × V)) :=
+  match s.head with
+  | none => none
+  | some h => s.walkNodes (s.lv.headD []).length h
+
+/-- `for n := s.GetNode(key); n != nil; n = n.Next() { … }`. -/
+def SL.walkFrom (cfg : Cfg K V) (s : SL K V) (key : K) : Option (List (K × V)) :=
+  match s.getNode cfg key with
+  | none => none
+  | some h => s.walkNodes (s.lv.headD []).length h
+
 end Golib.C02
